@@ -203,7 +203,7 @@ func grammarOutcome(w *World, fo *funcOutcome) {
 		if !ok {
 			st = "sat"
 		}
-		fo.Res[i] = OblResult{st, backend, 0}
+		fo.Res[i] = OblResult{Status: st, Solver: backend}
 	}
 	var nts []string
 	for nt := range gs.Rows {
